@@ -319,13 +319,67 @@ function fileMarks(rep) {
   }
 }
 
+/** string-literal bodies as sequences of source pieces: each piece has a spelling and a denotation; every sequence of <= 3 (thorough: 4) */
+const LITERAL_PIECES = [
+  ['a', 'a'],
+  ['\\\n', ''], ['\\\r\n', ''], ['\\\r', ''], ['\\\u2028', ''], ['\\\u2029', ''], // line continuations denote nothing
+  ['\n', '\n'], ['\r', '\r'], ['\u2028', '\u2028'], // a raw line break inside a literal is that character
+  ['\\\\', '\\'], ['\\n', '\n'], ['\\x41', 'A'], ['\\u0041', 'A'], ['\\0', '\0'], ['0', '0'],
+]
+/** reference reading of a literal body (JavaScript's, with raw line breaks taken as themselves): `\\` + CR LF is ONE continuation */
+function denoteLiteral(body) {
+  let out = ''
+  for (let i = 0; i < body.length; i++) {
+    const ch = body[i]
+    if (ch !== '\\') { out += ch; continue }
+    const n = body[++i]
+    if (n === '\r') { if (body[i + 1] === '\n') i++; continue }
+    if (n === '\n' || n === '\u2028' || n === '\u2029') continue
+    if (n === 'n') out += '\n'
+    else if (n === '0') out += '\0'
+    else if (n === 'x') { out += String.fromCharCode(parseInt(body.slice(i + 1, i + 3), 16)); i += 2 }
+    else if (n === 'u') { out += String.fromCharCode(parseInt(body.slice(i + 1, i + 5), 16)); i += 4 }
+    else out += n
+  }
+  return out
+}
+function literalPieces(rep, thorough, shard, of) {
+  const max = thorough ? 4 : 3
+  const seqs = []
+  const rec = (cur, n) => { if (cur.length) seqs.push(cur); if (n === 0) return; for (let i = 0; i < LITERAL_PIECES.length; i++) rec([...cur, i], n - 1) }
+  rec([], max)
+  const mine = seqs.filter((_, i) => i % of === shard)
+  const PER = 200
+  for (let start = 0; start < mine.length; start += PER) {
+    const part = mine.slice(start, start + PER)
+    // one file per sequence (a raw line break moves the lines of everything behind it)
+    const jobs = part.map((sq, i) => ({ id: i, files: [['s', `<b v="{{ '${sq.map((k) => LITERAL_PIECES[k][0]).join('')}' }}"/>`]], want: ['groups'] }))
+    const res = C.compileBatch(jobs, 1)
+    part.forEach((sq, i) => {
+      rep.states += 1; rep.transitions += 1; rep.evaluations += 1
+      const spelled = sq.map((k) => LITERAL_PIECES[k][0]).join('')
+      const want = denoteLiteral(spelled)
+      const r = res[i]
+      if (r.panic) { rep.count('literal-pieces:compiler-panics (C01)'); return }
+      // (NUL followed by a digit is an octal escape in JavaScript: not documented syntax here)
+      if (/\\0[0-9]/.test(spelled)) { rep.count('literal-pieces:skipped-octal-like'); return }
+      if ((r.diags.s || []).some((d) => d.level >= 3)) { rep.count('literal-pieces:rejected-by-the-parser'); return }
+      let got
+      try { const n = RT.render(RT.loadGroups(r.outputs.groups.ok, false), 's', {}).nodes.find((x) => x.t === 'el'); got = attr(n, 'attr', 'v') } catch (e) { got = 'throws ' + e }
+      rep.outcome([got === want, sq.length])
+      if (/[\n\r\u2028\u2029]/.test(spelled)) rep.nontrivialCase(spelled)
+      if (got !== want) rep.violation('C12|literal-pieces|' + sq.map((k) => k).join('.'), `the string literal '${show(spelled).slice(1, -1)}' (pieces ${JSON.stringify(sq.map((k) => LITERAL_PIECES[k][0]))}) denotes ${show(want)} but ${show(got)} arrives`, { engine: 'c12', pieces: sq })
+    })
+  }
+}
+
 function replayOne(rec) {
   const rep = new C.Report()
-  if (rec.entity) { namedEntities(rep) } else if (rec.bom !== undefined) { fileMarks(rep) } else {
+  if (rec.entity) { namedEntities(rep) } else if (rec.bom !== undefined) { fileMarks(rep) } else if (rec.pieces) { literalPieces(rep, true, 0, 1) } else {
     const cs2 = { c: rec.c, s: rec.s, hasB: usableInLiteral(rec.s), hasC: rec.s.length === String.fromCodePoint(rec.c).length }
     checkAlone(cs2, rep)
   }
-  const v = [...rep.violations.values()].filter((x) => !rec.entity || x.replay.entity === rec.entity)
+  const v = [...rep.violations.values()].filter((x) => (!rec.entity || x.replay.entity === rec.entity) && (!rec.pieces || JSON.stringify(x.replay.pieces) === JSON.stringify(rec.pieces)))
   return { deterministic: true, failure: v.length ? v.map((x) => x.what) : null }
 }
 
@@ -337,6 +391,7 @@ async function main() {
   if (info) {
     const rep = runShard(info, thorough)
     if (info.shard === 0) { namedEntities(rep); fileMarks(rep) }
+    literalPieces(rep, thorough, info.shard, info.of)
     require('fs').writeFileSync(info.partial, JSON.stringify(rep.toPartial()))
     return
   }
